@@ -21,15 +21,36 @@ def ref_proto(proto):
     return 'binary' if proto == 'unchecked' else proto
 
 
-def setup(chk, configs=None, docs=None):
-    """builds (or reuses) the driver for the working tree.  On failure reports a violation without input."""
+def setup(chk, configs=None, docs=None, defer=False):
+    """builds (or reuses) the driver for the working tree.  On failure reports a violation without input.
+    defer: the caller reports the documents that do not compile itself (flush_excluded), after the failures of its oracles"""
     if configs is None:
         configs = genbuild.CONFIGS_QUICK if chk.tier == 'quick' else genbuild.CONFIGS_QUICK + ('split',)
     if docs is None and chk.tier != 'quick':
         # thorough: the hand-written corpus plus seeded random documents
         docs = gengen.corpus() + gengen.random_docs(chk.seed, 6)
     gb = genbuild.build(configs, docs=docs)
-    chk.cov['build'] = dict(stage=gb.stage, configs=list(configs))
+    # the emitted code of some corpus documents does not compile: each such document is a failing input of its own; the build is
+    # repeated without them (and without the documents that include them) so that the oracles still run on the rest of the corpus
+    excluded = []
+    for _ in range(3):
+        if gb.ok or gb.docs is None or not gb.stage.startswith('cargo build pv-harness-gen'):
+            break
+        bad = _locate_failing_documents(gb)
+        names = set(b['name'] for b in bad)
+        rest = [d for d in gb.docs if d.name not in names and not (set(d.includes) & names)]
+        if not bad or not rest:
+            break
+        stage = gb.stage
+        gb2 = genbuild.build(configs, docs=rest)
+        if not gb2.ok and not _locate_failing_documents(gb2):
+            break
+        excluded += [dict(b, stage=stage, output=gb.error) for b in bad]
+        gb = gb2
+    gb.excluded = excluded
+    chk.cov['build'] = dict(stage=gb.stage, configs=list(configs), documents_that_do_not_compile=[b['name'] for b in excluded])
+    if excluded and not (defer and gb.ok):
+        flush_excluded(chk, gb)
     if not gb.ok:
         kind = 'corpus' if gb.stage == 'corpus' else 'build'
         doc = _locate_failing_document(gb)
@@ -58,6 +79,42 @@ def setup(chk, configs=None, docs=None):
                                idl=gengen.doc_idl(doc) if doc else None, repo=core.REPO), no_input=True)
     chk.cov['trusted_base'] = (chk.cov.get('trusted_base') or []) + [t for t in TRUSTED if t not in (chk.cov.get('trusted_base') or [])]
     return gb
+
+
+def flush_excluded(chk, gb):
+    for b in getattr(gb, 'excluded', None) or []:
+        chk.violation('the code pilota-build emits for corpus document `%s` does not compile (%s): %s' % (b['name'], b['stage'], b['error'][:300]),
+                      dict(kind='document', stage=b['stage'], document=b['name'], idl=b['idl'], emitted_at=b['where'], output=b['output'],
+                           repo=core.REPO))
+    gb.excluded = []
+
+
+def _locate_failing_documents(gb):
+    """every corpus document some rustc diagnostic points into"""
+    out, seen = [], set()
+    try:
+        odir = os.path.realpath(gb.out_dir or '')
+        names = {d.name: d for d in (gb.docs or [])}
+        cache = {}
+        for m in re.finditer(r'--> (\S+\.rs):(\d+)', gb.error or ''):
+            path, line = os.path.realpath(m.group(1)), int(m.group(2))
+            if not odir or not path.startswith(odir) or not os.path.exists(path):
+                continue
+            if path not in cache:
+                cache[path] = open(path, encoding='utf-8', errors='replace').read().split('\n')
+            lines = cache[path]
+            for i in range(min(line, len(lines)) - 1, -1, -1):
+                mm = re.match(r'\s*pub mod (\w+)\s*\{', lines[i])
+                if mm and mm.group(1) in names:
+                    d = names[mm.group(1)]
+                    if d.name not in seen:
+                        seen.add(d.name)
+                        msg = (gb.error or '')[max(0, m.start() - 300):m.end() + 100].strip()
+                        out.append(dict(name=d.name, idl=gengen.doc_idl(d), where='%s:%d' % (os.path.basename(path), line), error=' '.join(msg.split())))
+                    break
+    except Exception:
+        pass
+    return out
 
 
 def _locate_failing_document(gb):
